@@ -102,6 +102,14 @@ func assignTo(dec *Decoder, o interface{}, p interface{}) {
 }
 
 func ptrCopy(dec *Decoder, o interface{}, p interface{}) {
+	if src := reflect.TypeOf(o); src.Kind() != reflect.Ptr && reflect2.Type2(src).LikePtr() {
+		// a map (or any value that is itself one pointer word): the interface word is the
+		// value, not its address - a pointer to it needs a variable that holds it
+		v := reflect.New(src)
+		v.Elem().Set(reflect.ValueOf(o))
+		*(*unsafe.Pointer)(reflect2.PtrOf(p)) = unsafe.Pointer(v.Pointer())
+		return
+	}
 	*(*unsafe.Pointer)(reflect2.PtrOf(p)) = reflect2.PtrOf(o)
 }
 
